@@ -42,6 +42,10 @@ type Program struct {
 	Evict   []string `json:"evict,omitempty"` // names an extra thread Releases, one after the other
 	MaxSize int64    `json:"maxSize"`
 	Warm    []string `json:"warm,omitempty"` // caches present (committed) before the threads start
+	// ManagerOnly: no storage stand-in ordering the writers (the manager on its own, as the
+	// property quantifies): two writing transactions of one shard may overlap, and the
+	// monitors that compare cache versions with committed storage are off
+	ManagerOnly bool `json:"managerOnly,omitempty"`
 }
 
 func (t Tx) String() string {
@@ -77,21 +81,23 @@ type obj struct {
 	uncommittedBy int // tx that wrote it and has not committed the storage yet
 	owner         int // tx that holds it for writing (from its first rw callback until it calls Commit)
 	dead          bool
-	deadWriter    bool // made dead by a transaction that held it exclusively
-	byReader      bool // built by a read-only transaction from its snapshot
-	racy          bool // ... while a newer commit existed or a writer of the shard was in flight
+	deadWriter    bool        // made dead by a transaction that held it exclusively
+	readersIn     map[int]int // transactions currently inside a read-only callback on this object
+	byReader      bool        // built by a read-only transaction from its snapshot
+	racy          bool        // ... while a newer commit existed or a writer of the shard was in flight
 }
 
 func (o *obj) SizeInMemory() int64 { return 8 }
 
 type world struct {
-	committed map[string]int
-	token     map[string]int // shard -> tx holding the single bbolt writer slot
-	commitNow map[int]bool   // tx has called Commit
-	objSeq    int
-	viols     []schedlib.V
-	log       []string
-	created   map[string]int // createFn calls per name
+	managerOnly bool
+	committed   map[string]int
+	token       map[string]int // shard -> tx holding the single bbolt writer slot
+	commitNow   map[int]bool   // tx has called Commit
+	objSeq      int
+	viols       []schedlib.V
+	log         []string
+	created     map[string]int // createFn calls per name
 }
 
 func (w *world) fail(sig, format string, a ...any) {
@@ -121,7 +127,9 @@ func runTx(w *world, mgr *cache.Manager, id int, tx Tx) {
 		}
 	}
 	shard := shardOf(tx.Acc[0].Name)
-	if writes {
+	if writes && w.managerOnly {
+		vsched.Point("begin-write-tx(no storage) " + shard)
+	} else if writes {
 		// bbolt admits one write transaction per file
 		vsched.PointIf(fmt.Sprintf("begin-write-tx %s", shard), func() bool { return w.token[shard] == 0 })
 		w.token[shard] = id
@@ -163,10 +171,23 @@ func runTx(w *world, mgr *cache.Manager, id int, tx Tx) {
 			if o.uncommittedBy != 0 && o.uncommittedBy != id {
 				w.fail("uncommitted-state-observed", "tx%d (%s) is handed cache %s obj%d carrying uncommitted writes of tx%d", id, tx, a.Name, o.id, o.uncommittedBy)
 			}
+			if !a.RO {
+				for other, n := range o.readersIn {
+					if other != id && n > 0 {
+						w.fail("isolation-broken", "tx%d (%s) starts writing cache %s obj%d while tx%d is still inside a read-only callback on the same object", id, tx, a.Name, o.id, other)
+					}
+				}
+			} else {
+				if o.readersIn == nil {
+					o.readersIn = map[int]int{}
+				}
+				o.readersIn[id]++
+				defer func() { o.readersIn[id]-- }()
+			}
 			if o.dead && o.deadWriter {
 				w.fail("scrapped-cache-handed-out", "tx%d (%s) is handed cache %s obj%d which a failed transaction had written", id, tx, a.Name, o.id)
 			}
-			if !fresh && o.uncommittedBy != id && !o.dead {
+			if !fresh && o.uncommittedBy != id && !o.dead && !w.managerOnly {
 				// a shared cache must reflect committed storage; a reader may lag
 				// (its own snapshot) but never lead, a writer must see the latest
 				cur := w.committed[a.Name]
@@ -246,7 +267,7 @@ func run(raw json.RawMessage, prefix []string) (*vsched.Trace, []schedlib.V, str
 	if err := json.Unmarshal(raw, &p); err != nil {
 		panic(err)
 	}
-	w := &world{committed: map[string]int{"A1": 1, "A2": 1, "B1": 1}, token: map[string]int{}, commitNow: map[int]bool{}, created: map[string]int{}}
+	w := &world{managerOnly: p.ManagerOnly, committed: map[string]int{"A1": 1, "A2": 1, "B1": 1}, token: map[string]int{}, commitNow: map[int]bool{}, created: map[string]int{}}
 	mgr := cache.NewManager(p.MaxSize)
 	// warm start: a committed cache is in the manager
 	for _, n := range p.Warm {
@@ -301,7 +322,7 @@ func run(raw json.RawMessage, prefix []string) (*vsched.Trace, []schedlib.V, str
 					if o.uncommittedBy != 0 {
 						w.fail("uncommitted-state-observed", "probe is handed cache %s obj%d with uncommitted writes of tx%d", n, o.id, o.uncommittedBy)
 					}
-					if !created && o.ver != w.committed[n] {
+					if !created && o.ver != w.committed[n] && !w.managerOnly {
 						w.fail("stale-shared-cache"+staleClass(o), "after all transactions finished the shared cache %s obj%d reflects version %d, committed is %d", n, o.id, o.ver, w.committed[n])
 					}
 					return nil
@@ -344,7 +365,7 @@ func txShapes() []Tx {
 }
 
 func master(cfg *harness.Config, rep *harness.Report) {
-	rep.Rule = "programs: all unordered pairs (quick) / pairs and selected triples (thorough) of 13 transaction shapes (read-only / writing accesses to caches A1, A2 of shard A and B1 of shard B, failing callback, failing constructor, storage abort, two-access transactions incl. the same cache written twice) x evictor thread {none, Release(A1)} x manager size {-1, 0, 1 (< one object), 10 (one object fits, two do not)} x initial map {empty, A1 present}; for each program every interleaving of the threads at the scheduling points (every Lock/RLock/TryRLock/Unlock and atomic.Bool op of the real manager.go via shims, callback entry/exit, constructor, storage begin/end, eviction) with at most `bound` preemptions, iterated 0..bound; monitors: isolation, no uncommitted state observed, scrapped caches never handed out, shared caches reflect committed storage, no deadlock, final probe can write and commit every cache. states = distinct observable outcomes; transitions = scheduler steps; traces = complete executions (all on the real code)"
+	rep.Rule = "programs: all unordered pairs (quick) / pairs and selected triples (thorough) of 13 transaction shapes (read-only / writing accesses to caches A1, A2 of shard A and B1 of shard B, failing callback, failing constructor, storage abort, two-access transactions incl. the same cache written twice) x evictor thread {none, Release(A1)} x manager size {-1, 0, 1 (< one object), 10 (one object fits, two do not)} x initial map {empty, A1 present}; for each program every interleaving of the threads at the scheduling points (every Lock/RLock/TryRLock/Unlock and atomic.Bool op of the real manager.go via shims, callback entry/exit, constructor, storage begin/end, eviction) with at most `bound` preemptions, iterated 0..bound; monitors: isolation (no callback on a cache another transaction has written and not committed; no write callback while another transaction's read-only callback is still inside the same object), no uncommitted state observed, scrapped caches never handed out, shared caches reflect committed storage, no deadlock, final probe can write and commit every cache. states = distinct observable outcomes; transitions = scheduler steps; traces = complete executions (all on the real code)"
 	rep.Assumptions = []string{"the storage layer is a stand-in: per-shard committed counter and single-writer token taken before the first access and released before cacheTx.Commit, as Shard.InsertPoints orders it", "usage protocol: every With of a transaction returns before its Commit (the overlap is defect F4, covered under C07)", "memory model: sequentially consistent interleavings of the shimmed operations"}
 	p := pool.New(pool.Options{CPUsPerWorker: 1, JobTimeout: 300 * time.Second})
 	if cfg.Replay != "" {
@@ -417,6 +438,21 @@ func master(cfg *harness.Config, rep *harness.Report) {
 			{"triples, bound 1", triples([]int64{-1, 1, 10}, both), 1},
 			{"core pairs (size -1/10, A1 warm), bound 3", pairs([]int64{-1, 10}, [][]string{{"A1"}}, both), 3},
 			{"core triples (size 10, A1 warm), bound 2", triples([]int64{10}, [][]string{{"A1"}}), 2},
+		}
+	}
+	if cfg.Extra["manageronly"] != "" {
+		mo := func(ps []any) []any {
+			var out []any
+			for _, x := range ps {
+				pr := x.(Program)
+				pr.ManagerOnly = true
+				out = append(out, pr)
+			}
+			return out
+		}
+		phases = []phase{
+			{"manager only: pairs, sizes -1/1/10, bound 2", mo(pairs([]int64{-1, 1, 10}, both, both)), 2},
+			{"manager only: triples, sizes 1/10, bound 1", mo(triples([]int64{1, 10}, both)), 1},
 		}
 	}
 	if b := cfg.Extra["bound"]; b != "" {
